@@ -17,7 +17,7 @@ from lib.proto import Relay, Conn
 from lib.hist import address
 from lib.kvimpl import model_event
 
-THEOREMS_TIED = ["C06_sql_ok_iff_inserted", "C06_sql_refused_no_trace", "C06_sql_resubmission_no_change", "C06_kv_stored_after_ack",
+THEOREMS_TIED = ["C06_kv_resubmission_refused", "C06_kv_accepted_once", "C06_sql_accepted_once", "C06_sql_ok_iff_inserted", "C06_sql_refused_no_trace", "C06_sql_resubmission_no_change", "C06_kv_stored_after_ack",
                  "C06_kv_duplicate_no_change", "C06_kv_abort_no_trace"]
 
 T0 = 1700000000
@@ -224,6 +224,78 @@ def burst_duplicates(report, backend, rng, keys, tag):
         relay.close()
 
 
+def inflight_duplicate(report, drv, rng, tag):
+    """LMDB, the real writer thread: the same event is resubmitted while its first copy is *being written* (taken off the queue,
+    the write transaction waiting for the lock that another writer — a second worker's writer thread, a bulk load — holds):
+    it is a duplicate then as much as while it was queued or after it was stored"""
+    import threading
+    import time
+    from lib import gen
+    from lib.hist import KVStore
+
+    st = KVStore()
+    try:
+        threading.Thread.start(st.writer)
+        ev = gen.gen_event(rng, authors=gen.AUTHORS[:2], kinds=[1, 7, 30000], times=[gen.T0 + 5])
+        ev["tags"] = [["d", "x"]] if ev["kind"] == 30000 else []
+        have, release = threading.Event(), threading.Event()
+
+        def other_writer():
+            txn = st.env.begin(write=True)
+            have.set()
+            release.wait(10)
+            txn.abort()
+
+        th = threading.Thread(target=other_writer)
+        th.start()
+        have.wait(10)
+        outcomes = []
+        n0 = len(st.broadcasts)
+        e1, first = st.run(st.storage.add_event(dict(ev)))
+        outcomes.append(bool(first))
+        # wait until the writer thread has taken the task and sits in front of the lock
+        t0 = time.time()
+        while not (st.writer.queue.empty() and st.writer.processing) and time.time() - t0 < 5:
+            time.sleep(0.002)
+        time.sleep(0.01)
+        for _ in range(2):
+            try:
+                e2, again = st.run(st.storage.add_event(dict(ev)))
+            except Exception:
+                again = False
+            outcomes.append(bool(again))
+        release.set()
+        th.join()
+        st.run(st.storage.wait_for_writer())
+        pushed = len(st.broadcasts) - n0
+        payload = {"backend": "kv", "case": "inflight-duplicate", "event": ev}
+        if outcomes != [True, False, False]:
+            report.property_failure("kv: an event resubmitted while its first copy was being written was acknowledged %r (expected "
+                                    "new once, then duplicate)" % (outcomes,), payload, None)
+        if pushed != 1:
+            report.property_failure("kv: an event resubmitted while its first copy was being written was broadcast %d times" % pushed,
+                                    payload, None)
+        if ev["id"] not in st.ids():
+            report.property_failure("kv: the acknowledged event is not stored", payload, None)
+        # the same schedule through the Lean model of add_event + writer thread (Model/Announce.lean)
+        mv = drv.call({"op": "ann.run", "backend": "kv", "steps": [{"submit": 1, "eph": False}, {"writerTake": True},
+                                                                  {"submit": 1, "eph": False}, {"submit": 1, "eph": False},
+                                                                  {"writerCommit": True}]})
+        if mv["accepted"] != [1] * sum(outcomes) or mv["queued"] != 0:
+            report.correspondence_break("kv add_event + WriterThread (duplicate while being written)", payload,
+                                        {"acknowledged_as_new": outcomes}, mv)
+        report.case(("kv", "inflight-duplicate", tag), nontrivial=True, sample={"backend": "kv", "case": "inflight-duplicate"})
+        report.count("inflight_duplicates_kv")
+    finally:
+        try:
+            st.writer.running = False
+            st.writer.queue.put(None)
+            st.writer.join(5)
+        except Exception:
+            pass
+        st.close()
+
+
 def run(report, tier, seed):
     rng = random.Random(seed)
     drv = common.Driver()
@@ -235,12 +307,14 @@ def run(report, tier, seed):
         "broadcasts: validly signed regular / replaceable / parameterised / ephemeral / kind-5 events, resubmissions, bad "
         "signatures, tampered content, events that LMDB cannot store (600-byte tag value, non-ASCII tag values around the 511-byte "
         "key limit, 2**70 in a tag, float created_at), "
-        "nested-array tag values; non-trivial = the session contains something other than plain valid events")
+        "nested-array tag values; the same event three times in one burst on two connections; on LMDB with the real writer thread "
+        "also resubmitted while its first copy is being written (another writer holds the write lock); non-trivial = the session contains something other than plain valid events")
     report.assumptions += ["quiescence: the loop is settled and the LMDB writer drained after every message"]
     try:
         for i in range(2 if tier == "quick" else 30):
             for backend in ("sql", "kv"):
                 burst_duplicates(report, backend, rng, keys, i)
+            inflight_duplicate(report, drv, rng, i)
         for i in range(14 if tier == "quick" else 300):
             for backend in ("sql", "kv"):
                 run_session(report, drv, backend, rng, keys, i)
